@@ -129,7 +129,7 @@ theorem liveRecoveryCount_muc (s : St) : liveRecoveryCount (maybeUpdateCurrent s
 /-- **C14.4** a report of availability makes the endpoint available at once; if it was inside its
     recovery window the window is cancelled — exactly one live recovery timer fewer is pending —
     and otherwise no recovery timer is touched -/
-theorem c14_cancel_holds {s : St} (h : Reach s) (op : Op) : c14_cancel s op (step s op).1 = true := by
+theorem c14_cancel_holds {s : St} (h : Reach s) (op : Op) : c14_cancel s op (stepRaw s op).1 = true := by
   have ht := reach_tinv h
   unfold c14_cancel
   cases op with
@@ -143,8 +143,8 @@ theorem c14_cancel_holds {s : St} (h : Reach s) (op : Op) : c14_cancel s op (ste
       | some x =>
         have hxm := findEp_some hf
         simp only
-        have hpost : (step s (.setAvail e true)).1 = maybeUpdateCurrent (setStateEp s x .available) := by
-          simp only [step, opSetAvail, setEndpointAvailability, hf, ↓reduceIte]
+        have hpost : (stepRaw s (.setAvail e true)).1 = maybeUpdateCurrent (setStateEp s x .available) := by
+          simp only [stepRaw, opSetAvail, setEndpointAvailability, hf, ↓reduceIte]
         rw [hpost, liveRecoveryCount_muc]
         have hf1 := muc_fields (setStateEp s x .available)
         rw [hf1.1]
@@ -366,24 +366,24 @@ theorem V_opFire {s : St} (hv : V s) (ht : TInv s none) (hi : Inv s) (hj : J s) 
               · exact hv0
               · exact muc_V _
 
-theorem V_step {s : St} (hv : V s) (ht : TInv s none) (hi : Inv s) (hj : J s) (op : Op) : V (step s op).1 := by
+theorem V_step {s : St} (hv : V s) (ht : TInv s none) (hi : Inv s) (hj : J s) (op : Op) : V (stepRaw s op).1 := by
   cases op with
   | setAvail e a => exact muc_V _
   | setEndpoints l =>
-    simp only [step, opSetEndpoints]
+    simp only [stepRaw, opSetEndpoints]
     split
     · exact hv
     · exact muc_V _
   | advance dt => exact hv
   | fire tid => exact V_opFire hv ht hi hj tid
 
-theorem V_init {r d : Int} {l : List String} {s : St} (h : init r d l = some s) : V s := by
+theorem V_init {r d : Int} {l : List String} {s : St} (h : initRaw r d l = some s) : V s := by
   intro T hT
   exfalso
   cases l with
-  | nil => simp [init] at h
+  | nil => simp [initRaw] at h
   | cons first rest =>
-    simp only [init, Option.some.injEq] at h
+    simp only [initRaw, Option.some.injEq] at h
     subst h
     let s0 : St := { r := r, d := d, eps := [], orphans := [], current := first, future := "",
                      timers := [], now := 0, nextObj := 0, nextTid := 0 }
@@ -394,25 +394,25 @@ theorem V_init {r d : Int} {l : List String} {s : St} (h : init r d l = some s) 
 
 theorem reach_V {s : St} (h : Reach s) : V s := by
   induction h with
-  | init _ _ hi => exact V_init hi
-  | step op hr ih => exact V_step ih (reach_tinv hr) (reach_inv hr) (reach_J hr) op
+  | initRaw _ _ hi => exact V_init hi
+  | stepRaw op hr ih => exact V_step ih (reach_tinv hr) (reach_inv hr) (reach_J hr) op
 
 /-- **C14.7** once inputs stop and every pending timer has fired, `current` is the highest-priority
     available endpoint, if any endpoint is available -/
-theorem c14_converged_holds {s : St} (h : Reach s) (op : Op) : c14_converged (step s op).1 = true := by
-  have hr := Reach.step op h
+theorem c14_converged_holds {s : St} (h : Reach s) (op : Op) : c14_converged (stepRaw s op).1 = true := by
+  have hr := Reach.stepRaw op h
   have hv := reach_V hr
   have ht := reach_tinv hr
   unfold c14_converged
-  by_cases hcond : ((liveTimers (step s op).1).isEmpty && anyAvail (step s op).1.eps) = true
+  by_cases hcond : ((liveTimers (stepRaw s op).1).isEmpty && anyAvail (stepRaw s op).1.eps) = true
   · simp only [hcond, ↓reduceIte]
     simp only [Bool.and_eq_true, List.isEmpty_iff] at hcond
     obtain ⟨hempty, hav⟩ := hcond
     obtain ⟨T, hT⟩ := anyAvail_iff_topAvail.mp hav
     rw [hT]
-    have hnolive : ∀ t ∈ (step s op).1.timers, t.stopped = false → False := by
+    have hnolive : ∀ t ∈ (stepRaw s op).1.timers, t.stopped = false → False := by
       intro t htm hs
-      have : t ∈ liveTimers (step s op).1 := by
+      have : t ∈ liveTimers (stepRaw s op).1 := by
         unfold liveTimers; exact List.mem_filter.mpr ⟨htm, by simp [hs]⟩
       rw [hempty] at this; cases this
     rcases hv T hT with h1 | ⟨c, hc, hrec⟩ | ⟨t, htm, _, hs, _⟩
